@@ -64,7 +64,8 @@ TIE = {
            'get_definition, is_state = Model.step / addEquationCore / removeEquation / addVariable / removeVariable '
            '(addEquation_tie, step_addEquation_tie, removeEquation_tie, addVariable_tie_of_inv, removeVariable_tie_of_inv).',
     'C09': 'Tied (Tie/Graph*.lean): the Model.graph property = C09.buildGraph for every equation system and every leftover '
-           'Variable.type (graph_tie, graph_independent), graph_with_sympy_numbers = C09.stripGraph (graphNum_tie; hypothesis: '
+           'Variable.type (graph_tie, graph_independent; the references of an equation are walked sorted by str, so the node and '
+           'edge LISTS do not depend on set iteration order: graph_set_order_irrelevant), graph_with_sympy_numbers = C09.stripGraph (graphNum_tie; hypothesis: '
            'python only filters equations that contain a Quantity), get_equations_for = C09.getEquationsFor incl. order and '
            'error classes (getEquationsFor_tie), and their composition. networkx / sympy calls are leaves.',
     'C10': 'Tied (Tie/Roles*.lean): get_state_variables, get_free_variable, get_derivatives, get_derived_quantities, '
@@ -102,7 +103,9 @@ TIE = {
            'unit conversion between equal units stays bit-identical.',
     'C15': 'Tied: transform_constants iterates the ordered variable list (transformConstants_tie breaks on set()), the '
            '_add_connections loop body (connLoop_body_tie), Model.graph built independently of leftover types and of the '
-           'order in which the variable list is visited (graph_independent).',
+           'order in which the variable list is visited (graph_independent), and - the references of an equation being walked '
+           'as sorted(..., key=str) in the source - of the order in which the reference sets are handed out '
+           '(graph_set_order_irrelevant; graph_tie breaks when the sorted() is removed).',
     'C16': 'Tied (Tie/UnitsInit.lean, Tie/Units.lean): UnitStore.__init__ = Units.Wire.World.newStore (id from the process-wide '
            'counter, prefix text, own or shared registry, initial known names: init_tie, init_prefix), _prefix_name / '
            '_prefix_expression = Units.prefixName / mangle, is_defined, get_unit, format = Iso.formatName. MODEL-LEVEL HALF '
